@@ -9,7 +9,7 @@ fams = []
 def fam(name, tier='quick', witness=False, w=2, tl=None, **kw):
     defs = ['%s=%s' % (k, v) for k, v in kw.items()] + (['WITNESS=1'] if witness else [])
     fams.append(Family(name + ('-witness' if witness else ''), 'h_c02.c', 'h_c02', defs,
-                       opts={'pagesize': 256, 'max_viol': 400, 'time_limit': tl or (420 if tier == 'quick' else 2400)},
+                       opts={'pagesize': 256, 'max_viol': 400, 'time_limit': tl or (900 if tier == 'quick' else 2400)},
                        tier=tier, witness=witness, weight=w, validate=3))
 ORDN = {0: 'event', 1: 'guard', 2: 'holder', 3: 'prioq', 4: 'default'}
 for o in range(5):
